@@ -25,6 +25,7 @@ import (
 
 	"github.com/oklog/ulid/v2"
 	"github.com/prometheus/prometheus/model/labels"
+	"github.com/prometheus/prometheus/model/value"
 	"github.com/prometheus/prometheus/storage"
 	"github.com/prometheus/prometheus/tsdb"
 	"github.com/prometheus/prometheus/tsdb/chunkenc"
@@ -69,6 +70,9 @@ const (
 	tQFinish
 	tQIter
 	tQClose
+	tVWritten
+	tVAwaited
+	tVEvicted
 )
 
 type blk struct {
@@ -154,6 +158,14 @@ type caseRun struct {
 	minT      int64
 	maxT      int64
 	perm      []int
+	view      bool    // stale-series / selected-series compaction (compactHeadViewLocked + truncateSeries)
+	viewSids  []int64 // series the compaction selects (those without out-of-order data)
+	viewRefs  []storage.SeriesRef
+	viewT     int64 // Head.MaxTime() at the start = the maxt handed to truncateSeries
+	vWritten  int
+	vAwaited  bool
+	inclWait  bool    // truncateSeries was seen waiting for a reader with mint = viewT
+	atMaxt    bool    // a querier with mint = viewT was open when the series were evicted
 	hot       []int64 // block boundaries above the head's minimum time at the start: the truncation points
 }
 
@@ -185,12 +197,26 @@ func (c *caseRun) emit(name string, tag int, args []int64, targ []int64) {
 	c.names = append(c.names, name)
 }
 
+// valOf / floatOf: sample values are small positive integers; 0 stands for the staleness marker.
+func valOf(f float64) int64 {
+	if value.IsStaleNaN(f) {
+		return 0
+	}
+	return int64(f)
+}
+func floatOf(v int64) float64 {
+	if v == 0 {
+		return math.Float64frombits(value.StaleNaN)
+	}
+	return float64(v)
+}
+
 func lbl(sid int64) labels.Labels { return labels.FromStrings("a", fmt.Sprint(sid)) }
 
 // ---- history -------------------------------------------------------------------------------
 
 func (c *caseRun) appendOne(sid, t, v int64) bool {
-	res, err := c.db.Tx([]tsdbx.AppendReq{{Labels: lbl(sid), T: t, V: float64(v)}}, true)
+	res, err := c.db.Tx([]tsdbx.AppendReq{{Labels: lbl(sid), T: t, V: floatOf(v)}}, true)
 	if err != nil || len(res) != 1 || res[0] != tsdbx.OK {
 		return false
 	}
@@ -265,6 +291,147 @@ func (c *caseRun) corpusGcWindow() {
 		c.closeQ(q3)
 	}
 	c.dist["corpus:gc-window"]++
+}
+
+// viewHistory: 2-3 series of in-order samples; for "stale" some series end with a staleness marker
+// (sometimes the newest sample of the head), for "selected" a subset is chosen later; one series
+// may carry out-of-order data (such series are skipped by both compactions).
+func (c *caseRun) viewHistory() string {
+	r := c.r
+	nser := int64(2 + r.Intn(2))
+	base := r.PickI64(0, 1000, 1000, 300, -450)
+	v := int64(1)
+	add := func(sid, t, val int64) {
+		if c.appendOne(sid, t, val) && val != 0 {
+			v++
+		}
+	}
+	span := r.Range(60, 260)
+	step := r.Range(9, 40)
+	last := map[int64]int64{}
+	for t := base; t <= base+span; t += step + r.Range(0, 7) {
+		for s := int64(0); s < nser; s++ {
+			if r.Chance(5, 6) {
+				add(s, t+s%3, v)
+				last[s] = t + s%3
+			}
+		}
+	}
+	nstale := 0
+	if c.prog == "stale" {
+		for s := int64(0); s < nser; s++ {
+			if _, ok := last[s]; ok && (nstale == 0 || r.Chance(1, 2)) && nstale < int(nser)-1+r.Intn(2) {
+				// the marker right after the series' last sample, or as the newest sample of the head
+				t := last[s] + r.Range(1, 15)
+				if r.Chance(1, 2) {
+					t = base + span + 20 + s
+				}
+				add(s, t, 0)
+				nstale++
+			}
+		}
+	}
+	nooo := 0
+	if r.Chance(1, 3) {
+		s := int64(r.Intn(int(nser)))
+		for i := 0; i < 1+r.Intn(3); i++ {
+			add(s, base-10-r.Range(0, 80), v)
+			nooo++
+		}
+	}
+	c.nacked = len(c.table)
+	return fmt.Sprintf("view(series=%d,span=%d,stale=%d,ooo=%d,samples=%d)", nser, span, nstale, nooo, len(c.table))
+}
+
+// viewCorpusHistory: series 0 = 1000..1200 and (stale) a marker / (selected) a sample at 1250, the
+// newest sample of the head; series 1 = 1001..1201.
+func (c *caseRun) viewCorpusHistory() string {
+	v := int64(1)
+	for t := int64(1000); t <= 1200; t += 50 {
+		c.appendOne(0, t, v)
+		c.appendOne(1, t+1, v+1)
+		v += 2
+	}
+	if c.prog == "stale" {
+		c.appendOne(0, 1250, 0)
+	} else {
+		c.appendOne(0, 1250, v)
+	}
+	c.nacked = len(c.table)
+	return fmt.Sprintf("view-corpus(samples=%d)", len(c.table))
+}
+
+// viewSelect decides which series the compaction works on, from the head as it is.
+func (c *caseRun) viewSelect(corpus bool) {
+	c.viewT = c.db.DB.Head().MaxTime()
+	dump := c.db.HeadDump()
+	pick := map[int64]bool{}
+	if c.prog == "selected" {
+		for _, s := range dump {
+			if corpus && sidOf(s.Labels) != 0 {
+				continue
+			}
+			if corpus || len(pick) == 0 || c.r.Chance(1, 2) {
+				pick[sidOf(s.Labels)] = true
+			}
+		}
+	}
+	for _, s := range dump {
+		sid := sidOf(s.Labels)
+		stale := false
+		if n := len(s.InOrder); n > 0 {
+			if k := len(s.InOrder[n-1].Samples); k > 0 {
+				stale = value.IsStaleNaN(s.InOrder[n-1].Samples[k-1].V)
+			}
+		}
+		if c.prog == "selected" && pick[sid] {
+			c.viewRefs = append(c.viewRefs, storage.SeriesRef(s.Ref))
+		}
+		if len(s.OOO) > 0 {
+			continue // skipped by filterSeriesAndSortPostings / staleSeriesRefsNoOOOData
+		}
+		if (c.prog == "selected" && pick[sid]) || (c.prog == "stale" && stale) {
+			c.viewSids = append(c.viewSids, sid)
+		}
+	}
+	sort.Slice(c.viewSids, func(i, j int) bool { return c.viewSids[i] < c.viewSids[j] })
+	c.hot = append(c.hot, c.viewT)
+}
+
+// corpusEvictAtMaxt: reproducer of the truncateSeries boundary: a querier whose mint equals the
+// newest sample's timestamp is open before the compaction and reads only after it.
+func (c *caseRun) corpusEvictAtMaxt() {
+	q := c.newQuerierRange(c.viewT, c.viewT+750)
+	for !q.act.done && !q.act.parked {
+		c.advance(q.act)
+	}
+	for i := 0; i < 100 && !c.comp.done && !c.comp.parked; i++ {
+		c.advance(c.comp)
+	}
+	if c.comp.parked {
+		c.dist["corpus:evict-at-maxt-waited"]++
+	}
+	c.iterate(q) // late Select
+	c.closeQ(q)
+	c.dist["corpus:evict-at-maxt"]++
+}
+
+// corpusEvictHeld: a querier over everything is open before the compaction starts; the eviction
+// has to wait for it; it Selects only once the compaction is parked (or, if it never parks, done).
+func (c *caseRun) corpusEvictHeld() {
+	q := c.newQuerierRange(c.minT-5, c.maxT+5)
+	for !q.act.done && !q.act.parked {
+		c.advance(q.act)
+	}
+	for i := 0; i < 100 && !c.comp.done && !c.comp.parked; i++ {
+		c.advance(c.comp)
+	}
+	if !c.comp.parked {
+		c.dist["corpus:evict-did-not-wait"]++
+	}
+	c.iterate(q)
+	c.closeQ(q)
+	c.dist["corpus:evict-held"]++
 }
 
 func (c *caseRun) buildHistory() string {
@@ -377,7 +544,7 @@ func (c *caseRun) snapshot() {
 		sort.Strings(names)
 		for _, n := range names {
 			for _, x := range ser[n] {
-				k.samples = append(k.samples, c.sampleIndex(smp{sidOf(n), x.T, int64(x.V)}))
+				k.samples = append(k.samples, c.sampleIndex(smp{sidOf(n), x.T, valOf(x.V)}))
 			}
 		}
 		c.blocks[k.ulid] = k
@@ -396,13 +563,13 @@ func (c *caseRun) snapshot() {
 					leftover++ // kept in memory with its chunk, but below Head.MinTime: it is in a block
 					continue
 				}
-				c.headIno = append(c.headIno, c.sampleIndex(smp{sid, x.T, int64(x.V)}))
+				c.headIno = append(c.headIno, c.sampleIndex(smp{sid, x.T, valOf(x.V)}))
 			}
 		}
 		for _, ch := range s.OOO {
 			var l []int
 			for _, x := range ch.Samples {
-				l = append(l, c.sampleIndex(smp{sid, x.T, int64(x.V)}))
+				l = append(l, c.sampleIndex(smp{sid, x.T, valOf(x.V)}))
 			}
 			c.oooCh = append(c.oooCh, l)
 			if ch.Mmapped {
@@ -512,6 +679,19 @@ func (c *caseRun) condFalse(wait string) bool {
 			}
 		}
 		return false
+	case "series.readers":
+		// truncateSeries: WaitForPendingReadersInTimeRange(h.MinTime(), maxt) with maxt = Head.MaxTime()
+		// captured at the start; the function decrements its upper bound
+		lo, hi := h.MinTime(), c.viewT-1
+		if c.inclWait {
+			hi = c.viewT
+		}
+		for _, r := range h.VerifOpenReads() {
+			if r[0] <= hi && lo <= r[1] {
+				return true
+			}
+		}
+		return false
 	case "ooo.readers":
 		// the maintenance goroutine is past the publication of the reference: db.mtx is free
 		return h.VerifOOOReadsAtOrBefore(c.db.DB.VerifLastGCMmapRef())
@@ -540,8 +720,23 @@ func (c *caseRun) compHit(site string) {
 			c.emit(site, tHWritten, []int64{1, nb[0].id}, []int64{nb[0].mint, nb[0].maxt})
 		}
 	case "c06.reload.swapped":
+		if c.view {
+			// compactHeadViewLocked has no site of its own: the block written for this chunk range
+			// is seen here, right after it was loaded
+			nb, _ := c.newBlocks()
+			if len(nb) != 1 {
+				c.problem("view compaction: %d new blocks at a swap", len(nb))
+			}
+			for _, k := range nb {
+				c.emit("view.block_written", tVWritten, append([]int64{k.id}, c.viewSids...), []int64{k.mint, k.maxt})
+				c.vWritten++
+			}
+		}
 		c.refreshLoaded()
 		c.emit(site, tSwapped, nil, nil)
+	case "c06.truncateSeries.afterWait":
+		c.vAwaited = true
+		c.emit(site, tVAwaited, nil, []int64{c.viewT})
 	case "c06.block.closing":
 		id := int64(-1)
 		for _, k := range c.blocks {
@@ -686,13 +881,48 @@ func (c *caseRun) handle(a *actor, kind int, site string) {
 			if a.err != nil {
 				c.problem("maintenance run failed: %v", a.err)
 			}
+			if c.view {
+				c.viewFin()
+			}
 		} else {
 			c.qFin(c.qOf(a))
 		}
 	case kParked:
 		c.dist["parked:"+site]++
+		if site == "series.readers" && !c.condFalse(site) {
+			// the tree under test waits for readers starting at maxt as well (inclusive bound)
+			c.inclWait = true
+			c.dist["parked:series.readers-inclusive-bound"]++
+		}
 	case kStall:
 		c.problem("stall: actor %s made no progress", a.name)
+	}
+}
+
+// viewFin: the stale-/selected-series compaction returned; which of the selected series left the head?
+func (c *caseRun) viewFin() {
+	if !c.vAwaited && c.vWritten == 0 {
+		return
+	}
+	var ev []int64
+	if c.vAwaited {
+		inHead := map[int64]bool{}
+		for _, s := range c.db.HeadDump() {
+			inHead[sidOf(s.Labels)] = true
+		}
+		for _, sid := range c.viewSids {
+			if !inHead[sid] {
+				ev = append(ev, sid)
+			}
+		}
+	}
+	c.emit("view.evicted", tVEvicted, ev, nil)
+	if len(ev) > 0 {
+		for _, q := range c.qs {
+			if q.began && !q.closed && q.mint == c.viewT {
+				c.atMaxt = true
+			}
+		}
 	}
 }
 
@@ -711,6 +941,9 @@ func (c *caseRun) mayBlock(a *actor) bool {
 		creating, open := c.live()
 		if len(creating)+len(open) == 0 {
 			return false
+		}
+		if c.view {
+			return true
 		}
 		switch c.lastSite {
 		case "c06.head.block_written", "c06.ooo.block_written", "c06.blocks.block_written", "c06.reload.swapped",
@@ -750,7 +983,7 @@ func (c *caseRun) stillParked(a *actor) bool {
 			}
 		}
 		return false
-	case "head.readers", "ooo.readers":
+	case "head.readers", "ooo.readers", "series.readers":
 		return c.condFalse(a.wait)
 	}
 	return true
@@ -768,7 +1001,7 @@ func (c *caseRun) recheck() {
 		if c.stillParked(a) {
 			continue
 		}
-		k, s := await(a, false, c.condFalse)
+		k, s := await(a, false, false, c.condFalse)
 		c.handle(a, k, s)
 	}
 }
@@ -781,7 +1014,7 @@ func (c *caseRun) advance(a *actor) {
 	a.started = true
 	mb := c.mayBlock(a)
 	a.resume <- struct{}{}
-	k, s := await(a, mb, c.condFalse)
+	k, s := await(a, mb, true, c.condFalse)
 	c.handle(a, k, s)
 	c.recheck()
 }
@@ -918,7 +1151,7 @@ func (c *caseRun) iterate(q *qry) {
 				for it.Next() == chunkenc.ValFloat {
 					t, v := it.At()
 					if t >= q.mint && t <= q.maxt {
-						res = append(res, c.sampleIndex(smp{sid, t, int64(v)}))
+						res = append(res, c.sampleIndex(smp{sid, t, valOf(v)}))
 					}
 				}
 				if it.Err() != nil {
@@ -934,7 +1167,7 @@ func (c *caseRun) iterate(q *qry) {
 			it := s.Iterator(nil)
 			for it.Next() == chunkenc.ValFloat {
 				t, v := it.At()
-				res = append(res, c.sampleIndex(smp{sid, t, int64(v)}))
+				res = append(res, c.sampleIndex(smp{sid, t, valOf(v)}))
 			}
 			if it.Err() != nil {
 				c.problem("iterator error: %v", it.Err())
@@ -1145,11 +1378,12 @@ type result struct {
 func runCase(seed uint64, idx int, root string) (res result) {
 	r := gen.Fork(seed, idx)
 	c := &caseRun{idx: idx, r: r, index: map[smp]int{}, blocks: map[string]*blk{}, dist: map[string]int{}}
-	c.prog = gen.Pick(r, []string{"compact", "compact", "planner", "planner", "planner", "ooo", "merge", "merge"})
-	corpus := idx < 2
+	c.prog = gen.Pick(r, []string{"compact", "compact", "planner", "planner", "planner", "ooo", "merge", "merge", "stale", "stale", "selected", "selected"})
+	corpus := idx < 5
 	if corpus {
-		c.prog = []string{"ooo", "compact"}[idx]
+		c.prog = []string{"ooo", "compact", "stale", "selected", "stale"}[idx]
 	}
+	c.view = c.prog == "stale" || c.prog == "selected"
 	dir, err := os.MkdirTemp(root, "db")
 	if err != nil {
 		panic(err)
@@ -1167,12 +1401,20 @@ func runCase(seed uint64, idx int, root string) (res result) {
 	c.db = db
 	defer db.DB.Close()
 	var hist string
-	if corpus {
+	switch {
+	case corpus && c.view:
+		hist = c.viewCorpusHistory()
+	case corpus:
 		hist = c.corpusHistory()
-	} else {
+	case c.view:
+		hist = c.viewHistory()
+	default:
 		hist = c.buildHistory()
 	}
 	c.snapshot()
+	if c.view {
+		c.viewSelect(corpus)
+	}
 
 	var mergeIDs []string
 	if c.prog == "merge" {
@@ -1193,21 +1435,31 @@ func runCase(seed uint64, idx int, root string) (res result) {
 			return db.CompactOOOHead()
 		case "merge":
 			return db.MergeBlocks(mergeIDs)
+		case "stale":
+			return db.DB.CompactStaleHead()
+		case "selected":
+			return db.DB.CompactSelectedSeries(c.viewRefs)
 		default:
 			return db.Compact()
 		}
 	})
 
 	place := -2
-	if corpus {
+	switch {
+	case corpus && idx == 2:
+		c.corpusEvictAtMaxt()
+	case corpus && c.view:
+		c.corpusEvictHeld()
+	case corpus:
 		c.corpusGcWindow()
-	} else {
+	}
+	if !corpus {
 		// placement: let the maintenance run take k steps undisturbed, then interleave densely
 		place = idx % 26
 		if r.Chance(1, 5) {
 			place = 0
 		}
-		if r.Chance(1, 4) { // a querier that is open before the run starts
+		if r.Chance(1, 4) || (c.view && r.Chance(1, 2)) { // a querier that is open before the run starts
 			q := c.newQuerier()
 			for !q.act.done {
 				c.advance(q.act)
@@ -1250,6 +1502,10 @@ func runCase(seed uint64, idx int, root string) (res result) {
 	res.problems = c.problems
 	res.nontriv = c.midRun > 0
 	shape := "ok"
+	if c.atMaxt {
+		// Head.truncateSeries does not wait for a reader whose mint equals its (inclusive) maxt
+		shape = "stale-evict-reader-at-maxt"
+	}
 	if len(c.problems) > 0 {
 		shape = "harness-problem"
 		for i, p := range c.problems {
